@@ -13,9 +13,16 @@ func init() {
 		Stub: []string{"storage.Storage -> simstore", "wall clock -> testing/synctest fake clock", "math/rand shuffle in Get: seeded from the fake clock (godebug randseednop=0); results compared as sets"},
 		Assumptions: []string{"single caller at a time in this engine (every method holds the repository lock from entry to exit, so an interleaving of callers is an order of calls); worker processes run under a 4 GiB address-space limit (RLIMIT_AS) so that an allocation sized from a corrupt count field (16 GiB) aborts deterministically, as it would on a small host, instead of exhausting this machine",
 			"record boundaries are obtained black-box from the lengths of files saved with the first j peers"},
-		FaultKinds:   []string{"file-cut-short", "damaged-file:count-negative", "damaged-file:count-huge", "damaged-file:addrlen-negative", "damaged-file:addrlen-large", "damaged-file:random-bytes", "damaged-file:flip-byte", "damaged-file:version", "damaged-file:count-small"},
-		ProbeNames:   []string{"add-existing-address", "negative-score", "get-unbounded", "get-proper-subset", "save", "save+load", "prefixes-with>=3-peers"},
-		Run:          peersworld.Run,
+		FaultKinds: []string{"file-cut-short", "damaged-file:count-negative", "damaged-file:count-huge", "damaged-file:addrlen-negative", "damaged-file:addrlen-large", "damaged-file:random-bytes", "damaged-file:flip-byte", "damaged-file:version", "damaged-file:count-small"},
+		ProbeNames: []string{"add-existing-address", "negative-score", "get-unbounded", "get-proper-subset", "save", "save+load", "prefixes-with>=3-peers"},
+		Run: func(c *core.Ctx) {
+			if core.FAvailable() {
+				runC20F(c) // Engine F phase (instrumented build): concurrent callers
+				return
+			}
+			peersworld.Run(c)
+		},
 		QuickSeconds: 20, ThoroughSeconds: 600, MinRuns: 500, BatchSize: 50, MemLimitMB: 4096,
+		FQuickSeconds: 10, FThoroughSeconds: 300,
 	})
 }
